@@ -39,6 +39,9 @@ pub struct Monitors {
     /// termination time (ms on the harness clock) of every worker with a time limit
     pub worker_term: BTreeMap<u32, u64>,
     pub now_ms: u64,
+    /// tasks that existed in a job at the moment its number of failed tasks exceeded max_fails (C14); tasks
+    /// submitted into the still-open job later are not "remaining tasks" of that moment
+    exceeded: BTreeSet<TaskId>,
 }
 
 impl Monitors {
@@ -108,6 +111,9 @@ impl Monitors {
                 EventPayload::TaskStarted { task_id, worker_ids, .. } => {
                     if self.terminal.contains(task_id) {
                         self.fail("c01.outcome_once", "start-after-outcome", format!("task {} reported started after its outcome", tid(*task_id)));
+                    }
+                    if self.exceeded.contains(task_id) {
+                        self.fail("c14.abort_all", "start-after-limit", format!("task {} started after its job exceeded max_fails", tid(*task_id)));
                     }
                     if self.cancelled.contains(task_id) {
                         self.fail("c08.cancel_final", "report-after-cancel", format!("task {} reported started after the cancel was answered", tid(*task_id)));
@@ -412,15 +418,24 @@ impl Monitors {
         }
     }
 
-    /// C14: when the job layer hands back a cancel list, the whole job is terminal afterwards
+    /// C14: once more tasks of a job have failed than max_fails allows, every task of the job is terminal
+    /// (judged on the job snapshot taken right after the task-failed callback, independent of what the job layer
+    /// hands back to the core) and none starts later (`events`)
     pub fn max_fails(&mut self, task: TaskId, ret: &[TaskId], jobs: &[JobSnap]) {
-        if ret.is_empty() {
-            return;
-        }
         if let Some(j) = jobs.iter().find(|j| j.id == task.job_id().as_num()) {
+            let failed = j.tasks.iter().filter(|(_, s)| *s == 'X').count() as u32;
+            let over = j.max_fails.map(|m| failed > m).unwrap_or(false);
             let pending: Vec<u32> = j.tasks.iter().filter(|(_, s)| *s == 'W' || *s == 'R').map(|(t, _)| *t).collect();
-            if !pending.is_empty() {
-                self.fail("c14.abort_all", "not-all-aborted", format!("job {} exceeded max-fails but tasks {:?} are still pending", j.id, pending));
+            if over {
+                for (t, _) in &j.tasks {
+                    self.exceeded.insert(TaskId::new(tako::JobId::new(j.id), tako::JobTaskId::new(*t)));
+                }
+            }
+            if (over || !ret.is_empty()) && !pending.is_empty() {
+                self.fail("c14.abort_all", "not-all-aborted", format!("job {}: {} failed task(s) exceed max_fails={:?} but tasks {:?} are still pending", j.id, failed, j.max_fails, pending));
+            }
+            if !over && !ret.is_empty() {
+                self.fail("c14.abort_all", "abort-within-limit", format!("job {}: {} failed task(s) within max_fails={:?} but the job layer cancels {}", j.id, failed, j.max_fails, tids(ret)));
             }
         }
     }
